@@ -69,10 +69,12 @@ CHECKS = {
          'implementation and general layout invariance are decided by the differential check on random, mutated and re-laid-out texts.' + DIFF,
     technique='Coq proof (scannerless reader model, literal lemmas) + differential correspondence + Python int/float oracle'),
  'C11': dict(
-    text='Theorems (Coq): printed integers of any size and sign and printed strings over ASCII (with the escapes wal_str writes) read back as themselves in every position. '
-         'PARTIAL: the structural round trip of nested expressions and shorthand = long form for every operand are decided by the differential check on expressions '
-         'generated from the reader grammar (and by computation in the model on representative instances).' + DIFF,
-    technique='Coq proof (print/read round trip for ints and strings) + differential correspondence + read-print-read oracle'),
+    text='Theorems (Coq): printed integers of any size and sign and printed strings over ASCII (with the escapes wal_str writes) read back as themselves in every position; '
+         'STRUCTURAL round trip (RoundTrip.v, induction on expression size): every expression built from integers, strings, plain symbols, booleans, all 106 operators and '
+         'arbitrarily nested lists prints to a text that reads back as the same expression, at top level and in every position. '
+         'PARTIAL: floats, forms the printer writes specially (quote forms, a@b, {array}), escaped identifiers and shorthand = long form for every operand are decided by '
+         'the differential check on expressions generated from the reader grammar (and by computation in the model on representative instances).' + DIFF,
+    technique='Coq proof (parser inverts printer: atoms in context, lists by induction on size) + differential correspondence + read-print-read oracle'),
  'C12': dict(
     text='Theorems (Coq): qualified names address exactly one trace; with one trace the qualified and plain name agree; stepping a named trace moves only it; the loaded-trace '
          'count equals the number of traces over every load/unload sequence; a failed load changes nothing; unload removes exactly that trace; and for the WHOLE evaluator '
